@@ -199,6 +199,9 @@ def _shard_main(args):
             if n > 0:
                 _run_hypothesis(mod, cfg, n, derive_seed(
                     mod.ID, seed, shard), acc)
+        if hasattr(mod, 'finish_shard'):
+            for res in mod.finish_shard(cfg):
+                acc.add(res)
     except Exception:
         acc.errors.append(traceback.format_exc()[-3000:])
     return acc
